@@ -21,6 +21,40 @@ pub fn build_dir(flavor: &str) -> PathBuf {
     verif_root().join(".build").join(format!("{}{flavor}", std::env::var("VERIF_BUILD_PREFIX").unwrap_or_default()))
 }
 
+/// For phases that run in a child process (another build flavour or another binary): the merged
+/// statistics of the child's phases as one JSON value, each violation with the complete replay
+/// record under `replay` (property set to `replay_property`, the one the child binary's own
+/// `--replay` understands).
+pub fn child_json(phases: &[Stats], replay_property: &str) -> Value {
+    let mut viol: Vec<Value> = vec![];
+    let mut goals: BTreeMap<String, u64> = BTreeMap::new();
+    let mut errors: Vec<String> = vec![];
+    let mut caps: Vec<String> = vec![];
+    let (mut evals, mut transitions, mut states, mut outcomes) = (0u64, 0u64, 0usize, 0usize);
+    for p in phases {
+        evals += p.evals;
+        transitions += p.transitions;
+        states += p.states.len();
+        outcomes += p.outcomes.len();
+        errors.extend(p.machinery_errors.iter().cloned());
+        caps.extend(p.caps.iter().map(|c| format!("{}: {c}", p.phase)));
+        for (k, v) in &p.goals {
+            *goals.entry(k.clone()).or_insert(0) += v;
+        }
+        for (c, r) in &p.violations {
+            let mut rp = r.replay.clone();
+            if let Some(o) = rp.as_object_mut() {
+                o.insert("property".into(), json!(replay_property));
+                o.insert("class".into(), json!(c));
+                o.insert("detail".into(), json!(r.detail));
+            }
+            viol.push(json!({"class": c, "detail": r.detail, "case": r.replay["case"], "index": r.replay["index"], "count": r.count, "replay": rp, "phase": p.phase}));
+        }
+    }
+    json!({"evals": evals, "transitions": transitions, "states": states, "outcomes": outcomes, "violations": viol, "goals": goals, "errors": errors, "caps": caps,
+        "phases": phases.iter().map(|p| json!({"phase": p.phase, "executions": p.evals, "wall_s": p.wall})).collect::<Vec<_>>()})
+}
+
 #[derive(Clone, Debug)]
 pub struct Known {
     pub property: String,
